@@ -208,7 +208,8 @@ int enc_run(const enccfg_t *c, encres_t *r){
       float **b=vorbis_analysis_buffer(&vd,(int)n);
       for(int ch=0;ch<c->channels;ch++)
         for(long i=0;i<n;i++) b[ch][i]=sig_sample(c->sig,c->sigseed,ch,done+i,c->rate,c->nsamples);
-      vorbis_analysis_wrote(&vd,(int)n);
+      if(c->refused_wrote>0 && calls+1==c->refused_wrote) r->refused_wrote_ret=vorbis_analysis_wrote(&vd,(int)n+1000000);
+      if(vorbis_analysis_wrote(&vd,(int)n)) r->wrote_errors++;
       done+=n; calls++;
       if(!c->lazy || (calls&3)==0) enc_drain(&vd,&vb,&r->pk);
     }
